@@ -5,11 +5,13 @@ import (
 	"fmt"
 	"io"
 	"os"
+	"os/exec"
 	"time"
 
 	"github.com/logrange/logrange/api"
 	"github.com/logrange/logrange/pkg/model"
 	"github.com/logrange/logrange/pkg/utils/verifhook"
+	"github.com/logrange/range/pkg/records/chunk"
 	"verifharness/internal/lrsrv"
 	"verifharness/internal/vh"
 )
@@ -42,6 +44,7 @@ func sectionHullRace() {
 	}
 	for _, n := range []int{250, 300} {
 		runReorderRace(sec, n)
+		runLightFillFailure(sec, n)
 	}
 	res.Done(sec)
 }
@@ -479,6 +482,102 @@ func runReorderRace(sec *vh.Section, n int) {
 	}
 	for i := range ans {
 		r.checks[i](ans[i])
+	}
+}
+
+// failChunk: a chunk whose records cannot be read (an I/O error)
+type failChunk struct{ chunk.Chunk }
+
+func (failChunk) Iterator() (chunk.Iterator, error) {
+	return nil, fmt.Errorf("verif: injected read error")
+}
+
+// runLightFillFailure is the deterministic replay of finding F63 (placeholder id; lead "a failed lightFill leaves the hull
+// [MaxInt64, 0]"). Crash image (no snapshot entry); the first SyncChunks cannot read the chunk's records: the chunk's
+// Iterator() fails (an I/O error, e.g. no file descriptor left; a cancelled context does NOT make lightFill fail). The entry
+// then carries [MaxInt64, 0] with Recs = 0, and it STAYS so: later SyncChunks read the two records again but syncChunks'
+// second apply() puts the known entry back over the filled one. While count > Recs the repair a7caf30 keeps the window open
+// (the queries in between must be complete); the next write makes the hull the hull of THAT batch alone with Recs = count,
+// and every range below it loses the chunk's earlier records.
+func runLightFillFailure(sec *vh.Section, n int) {
+	const how = "io"
+	dir := lrsrv.NewDir()
+	defer os.RemoveAll(dir)
+	srv, err := lrsrv.Start(dir, lrsrv.Opts{MaxChunkSize: 250000, NoRPC: true})
+	if err != nil {
+		res.Note("hullrace/lightfill: %v", err)
+		return
+	}
+	r := &sysRun{h: history{ChunkSize: 250000, Regime: "strict"}, srv: srv, dir: dir, ctx: context.Background(), sec: sec, section: "hullrace"}
+	defer func() { r.srv.Stop() }()
+	rng := vh.NewRng(int64(n))
+	r.ask("rw.reset 250000", func(string) {})
+	if !r.doWrite(op{Kind: "write", Segs: []seg{{T: 100, N: n, D: 1}}}, rng) || !r.doWrite(op{Kind: "write", Segs: []seg{{T: 1000, N: n, D: 1}}}, rng) {
+		return
+	}
+	if !r.waitIdle() {
+		return
+	}
+	img := lrsrv.NewDir()
+	os.RemoveAll(img)
+	defer os.RemoveAll(img)
+	if out, err := exec.Command("cp", "-a", dir, img).CombinedOutput(); err != nil {
+		res.Note("hullrace/lightfill: crash image: %v %s", err, out)
+		return
+	}
+	r.srv.Stop()
+	if r.srv, err = lrsrv.Start(img, lrsrv.Opts{MaxChunkSize: 250000, NoRPC: true}); err != nil {
+		res.Note("hullrace/lightfill: restart: %v", err)
+		r.srv = srv
+		return
+	}
+	r.jrnl = nil
+	if !r.acquireJournal() {
+		return
+	}
+	cks := r.chunks()
+	bad := make(chunk.Chunks, len(cks))
+	for i, c := range cks {
+		bad[i] = failChunk{c}
+	}
+	r.srv.TsIdx.SyncChunks(r.ctx, r.src, bad)
+	failed := r.implHull()
+	in := fmt.Sprintf(`{"schedule":"lightfill-failure","n":%d,"how":%q}`, n, how)
+	r.full = nil
+	r.ask("rw.restart crash", func(string) {})
+	r.ask("rw.failsync", func(string) {})
+	cmpHull := func(what string) {
+		hull := r.implHull()
+		r.ask("rw.hull", func(ans string) {
+			if ans != hull {
+				res.Mismatch(vh.Mismatch{Section: "hullrace", Function: "chunk hulls (GetRecordsInfo) " + what, Input: in, Impl: short(hull), Model: short(ans)})
+			}
+		})
+	}
+	cmpHull("after a SyncChunks that could not read the records")
+	// count > Recs = 0: the window is open, nothing is hidden
+	r.doQuery(op{Kind: "query", Lo: i64p(150), Hi: i64p(160)}, false)
+	r.doQuery(op{Kind: "query", Lo: i64p(1000), Hi: i64p(1000)}, false)
+	r.doQuery(op{Kind: "query", Hi: i64p(1005)}, false)
+	cmpHull("after a failed lightFill and the next queries (each of them runs SyncChunks)")
+	if !r.doWrite(op{Kind: "write", Segs: []seg{{T: 2000, N: n, D: 1}}}, rng) {
+		return
+	}
+	r.schedFinding = "F63"
+	r.doQuery(op{Kind: "query", Lo: i64p(150), Hi: i64p(160)}, false)
+	r.doQuery(op{Kind: "query", Hi: i64p(1005)}, false)
+	r.doQuery(op{Kind: "query", Lo: i64p(1990), Hi: i64p(2010), Page: 7}, false)
+	r.schedFinding = ""
+	r.doQuery(op{Kind: "query", Lo: i64p(2000)}, false)
+	ans, err := vh.Batch(args.Driver, r.lines)
+	if err != nil {
+		res.Note("hullrace/lightfill: driver: %v", err)
+	}
+	for i := range ans {
+		r.checks[i](ans[i])
+	}
+	if os.Getenv("C02_ONLY") != "" {
+		fmt.Fprintf(os.Stderr, "lightfill failure n=%d how=%s: hull after failed fill %s ; at the end %s\n", n, how, failed, r.implHull())
 	}
 }
 
